@@ -185,6 +185,7 @@ def make_tornado(w: World):
     loop = VLoop(w)
     asyncio.set_event_loop(loop)
     io = AsyncIOLoop(asyncio_loop=loop)
+    io.time = lambda: w.t  # IOLoop.time() is the real clock otherwise: call_later() would shorten every delay by the real time between two reads of it
 
     def close():
         io.close(all_fds=False)
